@@ -522,7 +522,8 @@ def ovec_traversal_exhaustive(maxlen):
 
 
 def ovec_random(rng, n, maxops=60, lagbias=False, big=False):
-    """big=True: the vector starts with 70..200 items and capacities go up to 64"""
+    """big=True: the vector starts with 70..200 items and capacities go up to 64; half of the big
+    cases hold long transactions (25..80 batched operations before the commit)"""
     cases = []
     for _ in range(n):
         cap = rng.choice((1, 2, 3, 5, 16) if lagbias else (1, 2, 3, 4, 16, 16))
@@ -542,6 +543,11 @@ def ovec_random(rng, n, maxops=60, lagbias=False, big=False):
             nsubs, live = 1, [0]
         in_txn = False
         nops = rng.randrange(3, maxops)
+        longtxn = big and rng.random() < 0.5
+        if longtxn:
+            nops = rng.randrange(40, 120)
+        # cumulative thresholds inside a transaction: mutate, rollback, get, poll, dropsub, commit (else drop)
+        tthr = (0.91, 0.915, 0.92, 0.965, 0.97, 0.993) if longtxn else (0.6, 0.68, 0.72, 0.8, 0.84, 0.94)
 
         def mut(ln):
             # returns (text, new length); mostly valid
@@ -597,21 +603,21 @@ def ovec_random(rng, n, maxops=60, lagbias=False, big=False):
         for _ in range(nops):
             r = rng.random()
             if in_txn:
-                if r < 0.6:
+                if r < tthr[0]:
                     t, tlen = mut(tlen)
                     ops.append("t." + t)
-                elif r < 0.68:
+                elif r < tthr[1]:
                     ops.append("t.rollback")
                     tlen = length
-                elif r < 0.72:
+                elif r < tthr[2]:
                     ops.append("t.get")
-                elif r < 0.8 and live:
+                elif r < tthr[3] and live:
                     ops.append("poll(%d)" % rng.choice(live))
-                elif r < 0.84 and live:
+                elif r < tthr[4] and live:
                     k = rng.choice(live)
                     live.remove(k)
                     ops.append("dropsub(%d)" % k)
-                elif r < 0.94:
+                elif r < tthr[5]:
                     ops.append("tc")
                     length = tlen
                     in_txn = False
@@ -619,7 +625,11 @@ def ovec_random(rng, n, maxops=60, lagbias=False, big=False):
                     ops.append("td")
                     in_txn = False
             else:
-                if r < 0.5:
+                if longtxn and rng.random() < 0.3:
+                    ops.append("tb")
+                    in_txn = True
+                    tlen = length
+                elif r < 0.5:
                     t, length = mut(length)
                     ops.append(t)
                 elif r < 0.58 and nsubs < 4:
